@@ -57,7 +57,7 @@ func TestVerifPubSubSplit(t *testing.T) {
 	opts.MaxMsgSize = 100000
 	opts.MaxBodySize = 1000000
 	opts.MaxReqTimeout = time.Hour
-	tcpAddr, _, nsqd := mustStartNSQD(opts)
+	tcpAddr, _, nsqd := vfStartNSQD(opts)
 	defer nsqd.Exit()
 	defer vfE1PanicGuard("the publisher-and-subscriber connection scenario", nil)()
 	r := vfNewRand(83)
